@@ -9,6 +9,9 @@ package main
 //                         of a workload no selector policy selects
 //   client-agrees         checkMtlsEnabled (no DestinationRule override, sidecar endpoint) is true
 //                         exactly when effectiveMode != DISABLE
+//   inbound-enforces      for every destination port, the filter chains of the real virtualInbound listener
+//                         that Envoy selects for it admit plaintext iff effectiveMode != STRICT, terminate
+//                         mutual TLS iff effectiveMode != DISABLE, never terminate TLS without client cert
 //   ambient-strict-exact  the ztunnel policies attached to the workload reject an unauthenticated
 //                         peer on port p exactly when effectiveMode p = STRICT
 
@@ -107,6 +110,13 @@ func oracle(stream, in, outp string) {
 					fail("client-agrees", "checkMtlsEnabled", fmt.Sprintf("real %s spec-not-disable %v", res, want))
 				}
 			}
+		case "il":
+			res := s.apply(f)
+			if res == "crash" || res == "bad-op" || res == "no-virtual-inbound" {
+				fail("never-crashes", "crash", strings.Join(f, " ")+" -> "+res)
+				continue
+			}
+			s.inboundOracle(f, res, fail)
 		case "aq":
 			res := s.apply(f)
 			if res == "crash" || res == "bad-op" {
